@@ -75,7 +75,9 @@ def _gen_case_a(seed: int, tier: str, index: int) -> Dict[str, Any]:
         for spec in responders:
             spec["replies"] = spec["replies"] * (1 + len(more)) + [[0.01]] * 4
     cfg = {"profile": profile, "net": net, "loop": loop_cfg, "tables": tables, "initial": initial, "timeout": timeout,
-           "use_real": use_real, "filter": filt, "pick": rng.randrange(100), "more_rounds": more}
+           "use_real": use_real, "filter": filt, "pick": rng.randrange(100), "more_rounds": more,
+           # the client's event handler may really suspend (it is awaited from inside the hello consumer task)
+           "handler_suspend_p": rng.choice([0.0, 0.0, 0.5, 1.0]), "handler_suspend_max": rng.choice([0.05, 0.3, 1.5])}
     return {"property": PROP, "world": "A", "seed": seed, "cfg": cfg, "plan": responders}
 
 
@@ -152,9 +154,16 @@ async def scenario(world: WorldA) -> None:
         if f in ("empty_strings", "empty_address"):
             kw["spa_address"] = ""
         events: List[Any] = []
+        susp = {"total": 0.0}
+        s_susp = world.choices.stream("c15.handler")
 
         async def on_event(event, **kwargs):
             events.append((world.now(), event, kwargs))
+            if cfg.get("handler_suspend_p") and event == GeckoSpaEvent.LOCATING_DISCOVERED_SPA and s_susp.chance(cfg["handler_suspend_p"]):
+                dt = s_susp.uniform(0.0, cfg["handler_suspend_max"])
+                susp["total"] += dt
+                res.fault("client_handler_suspend")
+                await asyncio.sleep(dt)
 
         taskman = AsyncTasks()
         locator = GeckoAsyncLocator(taskman, on_event, **kw)
@@ -168,13 +177,15 @@ async def scenario(world: WorldA) -> None:
         except Exception as e:
             world.violate(PROP, "discover-raised", f"discover() raised {type(e).__name__}: {e}")
         T_ret = world.now()
-        stall = (world.clock.stall_total_ns - stall0) / 1e9
+        # time the hello consumer spent suspended in the client's handler delays everything behind it, like a stall
+        stall = (world.clock.stall_total_ns - stall0) / 1e9 + susp["total"]
         listed = list(locator.spas or [])
         tr = world.loop.transports[n_ep] if len(world.loop.transports) > n_ep else None
         if tr is None:
             raise HarnessError("discover() opened no endpoint")
         closed_on_return = tr.close_called > 0
-        await asyncio.sleep(0)
+        for _ in range(3):
+            await asyncio.sleep(0)          # cancelled helper tasks need a turn of the loop to unwind
         loc_tasks = [t.get_name() for t in library_tasks() if t.get_name().startswith("LOC:")]
         world.loop.stalls_on = False
 
